@@ -51,7 +51,13 @@ theorem C13_faithful_example :
 `Wire.faithful c` (see its docstring in `KV/Wire.lean`) says: every `Bind` goes to a named type whose conventional
 constructor `New<T>` is found by name *and is the provider listed in the set*; `FieldsOf` is in pointer form; two
 different items never supply the same type and no item supplies an injector argument (wire's own "multiple bindings"
-rejection); the value form `T` of a `wire.Struct(new(T), …)` is never asked for. -/
+rejection); the value form `T` of a `wire.Struct(new(T), …)` is never asked for; a `Bind` is written in the same element list
+(`Cfg.parts`) as the provider it stands for, which is listed in no other list (`bindTogether`, cf. `cfgBindApart`); every type
+is supplied at one position only (`listedOnce`).  One implementation may be bound to several interfaces: written in one element
+list the `Bind`s are nested around one provider (`cfgBindTwice`); in different element lists they are excluded by
+`bindTogether` (`cfgBindTwiceApart`).
+`migratedEval` is `⊥` when `kessoku migrate` refuses **or** kessoku refuses the migrated declaration as ambiguous
+(`migrateChecked`). -/
 
 /-- **C13 on the faithful subset.**  The migration does not refuse, and for every fuel at which wire's own injector is
     a complete term (`NoBot`: the fuel sufficed; `NoMissing`: wire resolved every type) the migrated injector computes
@@ -62,6 +68,14 @@ theorem C13_partial (c : Cfg) (h : faithful c = true) :
     ∀ fuel, NoBot (wireEval c fuel c.ret) → NoMissing (wireEval c fuel c.ret) →
       migratedEval c fuel = wireEval c fuel c.ret :=
   migratedEval_faithful c h
+
+/-- "not refused" in the driver's sense (`W migrate=ok`): on the faithful subset `kessoku migrate` produces a declaration
+    and kessoku does not refuse it as ambiguous ("multiple providers provide T") -/
+theorem C13_partial_not_refused (c : Cfg) (h : faithful c = true) :
+    ∃ ks, migrate c = some ks ∧ kAmbiguous ks = false ∧ migrateChecked c = some ks := by
+  obtain ⟨ks, hm⟩ := Option.isSome_iff_exists.1 (migrate_faithful_some c h)
+  have ha := migrate_not_ambiguous c h ks hm
+  exact ⟨ks, hm, ha, migrateChecked_of_migrate hm ha⟩
 
 /-- the same in the literal shape of `C13_statement` (`V.beq … = true`) -/
 theorem C13_partial_beq (c : Cfg) (h : faithful c = true) (fuel : Nat)
@@ -152,5 +166,128 @@ theorem C13_fields_value_differs :
     faithful cfgFieldsValue = false ∧ (migrate cfgFieldsValue).isSome = true ∧
     V.beq (wireEval cfgFieldsValue 8 (.basic 1)) (.call fieldName [.call (mkName 0) [.arg (.basic 0)]]) = true ∧
     V.beq (migratedEval cfgFieldsValue 8) (.call fieldName [.call (mkPtrName 0) [.arg (.basic 0)]]) = true := by decide
+
+/-! ### bound types are collected per element list -/
+
+/-- **Known finding: a `Bind` written apart from its provider.**
+    `wire.Build(wire.NewSet(NewT1), wire.Bind(new(I0), new(*T1)), NewApp)`: `NewT1` sits in an inner set (element list 1), the
+    `Bind` and `NewApp` in the `Build` list (element list 0).  `transformElements` collects the bound types from the direct
+    elements of the list it is transforming, so `NewT1` is **not** dropped from the inner list, and the `Bind` still becomes
+    `Bind[I0](Provide(NewT1))`: two suppliers of `*T1`, kessoku refuses ("multiple providers provide *T1"). -/
+def cfgBindApart : Cfg :=
+  let newT : Func := { name := ctorName 1, params := [], result := .ptr 1 }
+  let newApp : Func := { name := newAppName, params := [.iface 0], result := .ptr 2 }
+  { items := [.func newT, .bind 0 (.ptr 1), .func newApp], args := [], ret := .ptr 2, pkgFuncs := [newT, newApp],
+    parts := [1, 0, 0] }
+
+theorem C13_neg_bind_apart :
+    NoBot (wireEval cfgBindApart 8 cfgBindApart.ret) ∧ NoMissing (wireEval cfgBindApart 8 cfgBindApart.ret) ∧
+    V.beq (wireEval cfgBindApart 8 cfgBindApart.ret) (.call newAppName [.call (ctorName 1) []]) = true ∧
+    (migrate cfgBindApart).isSome = true ∧
+    (∀ ks, migrate cfgBindApart = some ks → kAmbiguous ks = true) ∧
+    (migrateChecked cfgBindApart).isSome = false ∧
+    faithful cfgBindApart = false := by
+  refine ⟨by decide, by decide, by decide, by decide, ?_, by decide, by decide⟩
+  intro ks h
+  have h' : (migrate cfgBindApart).map kAmbiguous = some true := by decide
+  rw [h] at h'; simpa using h'
+
+/-- what the migration emits for `cfgBindApart`: `Provide(NewT1)`, `Bind[I0](Provide(NewT1))`, `Provide(NewApp)` -/
+theorem C13_bind_apart_migrated :
+    migrate cfgBindApart =
+      some [.provide { name := ctorName 1, params := [], result := .ptr 1 },
+            .bindProvide [0] { name := ctorName 1, params := [], result := .ptr 1 },
+            .provide { name := newAppName, params := [.iface 0], result := .ptr 2 }] := by decide
+
+/-- the finding refutes the full statement as well: the migration "succeeds" and the migrated declaration is refused -/
+theorem C13_neg_bind_apart_statement : ¬ C13_statement := by
+  intro h
+  have h1 : V.beq (migratedEval cfgBindApart 8) (wireEval cfgBindApart 8 cfgBindApart.ret) = true :=
+    h cfgBindApart 8 (by decide)
+  have h2 : V.beq (migratedEval cfgBindApart 8) (wireEval cfgBindApart 8 cfgBindApart.ret) = false := by decide
+  rw [h2] at h1; cases h1
+
+/-- the same items written in **one** element list (`parts := []`): faithful, and the two agree — the new conjunct of
+    `faithful` is not vacuous and excludes exactly the placement -/
+def cfgBindTogether : Cfg := { cfgBindApart with parts := [] }
+
+theorem C13_bind_together_agrees :
+    faithful cfgBindTogether = true ∧
+    NoBot (wireEval cfgBindTogether 8 cfgBindTogether.ret) ∧ NoMissing (wireEval cfgBindTogether 8 cfgBindTogether.ret) ∧
+    (migrateChecked cfgBindTogether).isSome = true ∧
+    V.beq (migratedEval cfgBindTogether 8) (wireEval cfgBindTogether 8 cfgBindTogether.ret) = true ∧
+    V.beq (migratedEval cfgBindTogether 8) (.call newAppName [.call (ctorName 1) []]) = true := by decide
+
+/-- it is the placement alone that `bindTogether` rejects: the other conjuncts hold of `cfgBindApart` -/
+theorem C13_bind_apart_only_placement :
+    bindTogether cfgBindApart = false ∧ listedOnce cfgBindApart = true ∧
+    -- `NewT1` and the `Bind` together in the inner set, `NewApp` in the `Build` list: faithful
+    faithful { cfgBindApart with parts := [1, 1, 0] } = true ∧
+    -- the `Bind` alone in the inner set: not faithful
+    faithful { cfgBindApart with parts := [0, 1, 0] } = false := by decide
+
+/-- **One implementation bound to two interfaces in one element list (repaired).**  `NewT1() *T1`, `Bind(I0, *T1)`,
+    `Bind(I1, *T1)`, `NewApp(I0, I1) *T2` in one element list.  The migration used to emit `Bind[I0](Provide(NewT1))` and
+    `Bind[I1](Provide(NewT1))`, both supplying `*T1`, which kessoku refuses (`NewGraph`: "multiple providers provide"; found
+    from this model and confirmed on the real tools).  The repaired migration emits nothing at the second `Bind` and wraps the
+    first item: `Bind[I1](Bind[I0](Provide(NewT1)))` — one item supplying `*T1`, `I0`, `I1`. -/
+def cfgBindTwice : Cfg :=
+  let newT : Func := { name := ctorName 1, params := [], result := .ptr 1 }
+  let newApp : Func := { name := newAppName, params := [.iface 0, .iface 1], result := .ptr 2 }
+  { items := [.func newT, .bind 0 (.ptr 1), .bind 1 (.ptr 1), .func newApp], args := [], ret := .ptr 2,
+    pkgFuncs := [newT, newApp] }
+
+/-- what the migration emits for `cfgBindTwice`: `Bind[I1](Bind[I0](Provide(NewT1)))`, `Provide(NewApp)` -/
+theorem C13_bind_twice_migrated :
+    migrate cfgBindTwice =
+      some [.bindProvide [0, 1] { name := ctorName 1, params := [], result := .ptr 1 },
+            .provide { name := newAppName, params := [.iface 0, .iface 1], result := .ptr 2 }] := by decide
+
+/-- `cfgBindTwice` is faithful, not refused, and the migrated injector computes wire's term -/
+theorem C13_bind_twice_agrees :
+    faithful cfgBindTwice = true ∧
+    NoBot (wireEval cfgBindTwice 8 cfgBindTwice.ret) ∧ NoMissing (wireEval cfgBindTwice 8 cfgBindTwice.ret) ∧
+    V.beq (wireEval cfgBindTwice 8 cfgBindTwice.ret) (.call newAppName [.call (ctorName 1) [], .call (ctorName 1) []]) = true ∧
+    (migrate cfgBindTwice).map kAmbiguous = some false ∧
+    (migrateChecked cfgBindTwice).isSome = true ∧
+    V.beq (migratedEval cfgBindTwice 8) (wireEval cfgBindTwice 8 cfgBindTwice.ret) = true := by decide
+
+/-- `C13_partial` applied (not re-evaluated) to `cfgBindTwice` -/
+theorem C13_bind_twice_agrees_partial : migratedEval cfgBindTwice 8 = wireEval cfgBindTwice 8 cfgBindTwice.ret :=
+  (C13_partial cfgBindTwice C13_bind_twice_agrees.1).2 8 C13_bind_twice_agrees.2.1 C13_bind_twice_agrees.2.2.1
+
+/-- **The ambiguity remains across element lists.**  The same items with the second `Bind` in another element list
+    (`NewT1`, `Bind(I0, *T1)`, `NewApp` in list 0, `Bind(I1, *T1)` in list 1): the nesting is per element list, so the two
+    `Bind`s become `Bind[I0](Provide(NewT1))` and `Bind[I1](Provide(NewT1))`, both supplying `*T1`; kessoku refuses.
+    `faithful` excludes it through `bindTogether` (the second `Bind` is not in the element list of `NewT1`). -/
+def cfgBindTwiceApart : Cfg := { cfgBindTwice with parts := [0, 0, 1, 0] }
+
+theorem C13_bind_twice_apart_migrated :
+    migrate cfgBindTwiceApart =
+      some [.bindProvide [0] { name := ctorName 1, params := [], result := .ptr 1 },
+            .bindProvide [1] { name := ctorName 1, params := [], result := .ptr 1 },
+            .provide { name := newAppName, params := [.iface 0, .iface 1], result := .ptr 2 }] := by decide
+
+theorem C13_bind_twice_apart_ambiguous :
+    NoBot (wireEval cfgBindTwiceApart 8 cfgBindTwiceApart.ret) ∧ NoMissing (wireEval cfgBindTwiceApart 8 cfgBindTwiceApart.ret) ∧
+    V.beq (wireEval cfgBindTwiceApart 8 cfgBindTwiceApart.ret)
+      (.call newAppName [.call (ctorName 1) [], .call (ctorName 1) []]) = true ∧
+    (migrate cfgBindTwiceApart).map kAmbiguous = some true ∧
+    (migrateChecked cfgBindTwiceApart).isSome = false ∧
+    bindTogether cfgBindTwiceApart = false ∧ listedOnce cfgBindTwiceApart = true ∧ faithful cfgBindTwiceApart = false := by decide
+
+/-- on the faithful subset all `Bind`s on one implementation are written in one element list (so the placement of
+    `cfgBindTwiceApart` is the only way two `Bind`s on one implementation can still go wrong, and `faithful` excludes it) -/
+theorem C13_faithful_binds_one_list (c : Cfg) (h : faithful c = true) {i j x y : Nat} {impl : Ty}
+    (hi : c.items[i]? = some (Item.bind x impl)) (hj : c.items[j]? = some (Item.bind y impl)) :
+    partOf c i = partOf c j :=
+  (Faithful.of_bool h).bindSameList hi hj
+
+/-- still rejected by `listedOnce`: one interface bound twice (here to two implementations); the same item listed twice;
+    a `FieldsOf` naming two fields of one type -/
+theorem C13_listedOnce_rejects :
+    listedOnce { cfgBindTwice with items := cfgBindTwice.items ++ [.bind 0 (.ptr 3)] } = false ∧
+    listedOnce { cfgBindTwice with items := cfgBindTwice.items ++ cfgBindTwice.items.take 1 } = false ∧
+    listedOnce { cfgValRequest with items := [.structP 0 [.basic 0], .fieldsOf 0 true [.basic 1, .basic 1]] } = false := by decide
 
 end C13
